@@ -331,19 +331,32 @@ def pool_case(rnd, cls):
   qkw = {"average_quantizer": Proxy(Q.quantized_bits(8, 0, 1, alpha=1.0), "average", log)}
   if hasact:
     qkw["activation"] = Proxy(Q.quantized_bits(12, 6, 1, alpha=1.0), "activation", log)
+  # channels_first and (global pooling) keepdims: same numbers, other layout / rank of the result
+  cf = rnd.random() < 0.3
+  keep = cls == "QGlobalAveragePooling2D" and rnd.random() < 0.4
+  fmt = dict(data_format="channels_first") if cf else {}
+  to_cf = (lambda a: np.moveaxis(np.asarray(a), -1, 1)) if cf else (lambda a: np.asarray(a))
+  to_cl = (lambda a: np.moveaxis(np.asarray(a), 1, -1)) if cf else (lambda a: np.asarray(a))
   if cls == "QAveragePooling2D":
-    lay = QAveragePooling2D(pool_size=(ph, pw), strides=(s, s), padding="valid", **qkw)
+    lay = QAveragePooling2D(pool_size=(ph, pw), strides=(s, s), padding="valid", **fmt, **qkw)
     area = ph * pw
   else:
-    lay = QGlobalAveragePooling2D(**qkw)
+    lay = QGlobalAveragePooling2D(keepdims=keep, **fmt, **qkw)
     area = h * w
   if cls == "QGlobalAveragePooling2D" and rnd.random() < 0.5:
     # history: the same layer object was used before on another spatial size (fully convolutional use)
     h0, w0 = rnd.choice([(2, 3), (3, 5), (5, 5)])
-    lay(tf.zeros((1, h0, w0, c)))
+    lay(tf.zeros((1, c, h0, w0) if cf else (1, h0, w0, c)))
     del log[:]
   x = np.array([rnd.randint(-6, 6) for _ in range(h * w * c)], dtype=np.float32).reshape((1, h, w, c)) * 2.0 ** SX
-  y = lay(tf.constant(x)).numpy()
+  y_raw = lay(tf.constant(to_cf(x))).numpy()
+  # the stock layer of the same geometry fixes the shape of the result
+  st_lay = L.AveragePooling2D(pool_size=(ph, pw), strides=(s, s), padding="valid", **fmt) if cls == "QAveragePooling2D" else \
+      L.GlobalAveragePooling2D(keepdims=keep, **fmt)
+  shape_ok = tuple(y_raw.shape) == tuple(st_lay(tf.constant(to_cf(x))).shape)
+  y = to_cl(y_raw) if y_raw.ndim == 4 else y_raw
+  if keep and y.ndim == 4:
+    y = y.reshape((y.shape[0], -1))
   rec = {r: (a, b) for r, a, b in log}
   # the average quantizer is applied to the reciprocal of THIS call's pooling area
   area_ok = int(np.float32(np.asarray(rec["average"][0]).reshape(-1)[0]) == np.float32(1.0 / area))
@@ -360,13 +373,17 @@ def pool_case(rnd, cls):
   ys = st * qmult
   if hasact:
     ys = Q.quantized_bits(12, 6, 1, alpha=1.0)(ys)
-  ev["stock"] = int(np.array_equal(np.asarray(ys), y))
+  ev["stock"] = int(shape_ok and np.array_equal(np.asarray(ys), y))
+  ev["cf"], ev["keepdims"] = int(cf), int(keep)
   ev["x"] = ints(x[0], SX)
   ev["qk"] = [[[[0]]]]
   ev["qk2"] = [[[[0]]]]
   ev["qb"] = [0]
-  pre = rec["activation"][0][0] if hasact else y[0]
-  ev["pre"] = ints(pre, SX - 7)
+  pre = rec["activation"][0] if hasact else y_raw
+  pre = to_cl(pre) if np.ndim(pre) == 4 else np.asarray(pre)
+  if keep and pre.ndim == 4:
+    pre = pre.reshape((pre.shape[0], -1))
+  ev["pre"] = ints(pre[0], SX - 7)
   return ev
 
 
